@@ -118,10 +118,11 @@ func genC13(c *Cfg, emit func([]string)) {
 		h := []string{"reset"}
 		for _, u := range users {
 			if c.Rng.Intn(4) > 0 {
-				h = append(h, "fund t "+u+" VT "+pick("100", "1000", "7"))
+				h = append(h, "fund t "+u+" VT "+pick("100", "1000", "5000", "7"))
 			}
 			if c.Rng.Intn(3) > 0 {
-				h = append(h, "fund a "+u+" "+pick(tokens...)+" "+pick("100", "50", "3"))
+				h = append(h, "fund a "+u+" "+pick(tokens...)+" "+pick("100", "500", "3"))
+				h = append(h, "fund a "+u+" "+pick(tokens...)+" "+pick("100", "500"))
 			}
 		}
 		type lk struct {
@@ -138,9 +139,9 @@ func genC13(c *Cfg, emit func([]string)) {
 			}
 			switch r := c.Rng.Intn(10); {
 			case r < 3 || len(locks) == 0:
-				id := fmt.Sprintf("L%d", c.Rng.Intn(6))
+				id := fmt.Sprintf("L%d", c.Rng.Intn(14))
 				u, tk := pick(users...), pick(tokens...)
-				amt := pick("1", "5", "7", "50", "100", "101", "1000", "1001", "0", "-1", "340282366920938463463374607431768211456")
+				amt := pick("1", "5", "7", "20", "50", "50", "100", "100", "101", "1000", "1001", "0", "-1", "340282366920938463463374607431768211456")
 				h = append(h, fmt.Sprintf("lock %s %s %s %s %s %s", kind, signer, id, u, tk, amt))
 				if a, err := strconv.Atoi(amt); err == nil && a > 0 {
 					locks = append(locks, lk{kind, id, u, tk, a})
@@ -183,7 +184,7 @@ func genC13(c *Cfg, emit func([]string)) {
 				h = append(h, "bal "+u+" "+tk)
 			}
 		}
-		for k := 0; k < 6; k++ {
+		for k := 0; k < 14; k++ {
 			h = append(h, fmt.Sprintf("get t L%d", k), fmt.Sprintf("get a L%d", k))
 		}
 		emit(h)
